@@ -5,6 +5,27 @@ import hyd
 import netgen
 
 
+def tank_pump(rnd, s):
+    """a pump connected directly to a tank: discharging into it (from a low reservoir or a junction) or drawing from it"""
+    tank = rnd.choice([n["name"] for n in s["nodes"] if n["type"] == "T"])
+    jn = [n["name"] for n in s["nodes"] if n["type"] == "J"]
+    into = rnd.random() < 0.7
+    if into and rnd.random() < 0.6:
+        if not any(n["name"] == "RP" for n in s["nodes"]):
+            s["nodes"].append({"name": "RP", "type": "R", "elev": 0.0, "head": netgen.rgrid(rnd, 5, 20, 2.5), "pat": ""})
+        other = "RP"
+    else:
+        other = rnd.choice(jn)
+    a, b = (other, tank) if into else (tank, other)
+    name = "PU%d" % len(s["links"])
+    if rnd.random() < 0.5:
+        s["links"].append({"name": name, "type": "powerpump", "a": a, "b": b, "init": 1, "power": netgen.rgrid(rnd, 3000, 15000, 1000)})
+    else:
+        d = {"name": name, "type": "headpump", "a": a, "b": b, "init": 1}
+        d.update(netgen.pump_family(rnd, rnd.choice([1, 3])))
+        s["links"].append(d)
+
+
 def main(tier, replay):
     ck = common.Check("C06", "model_checking", tier)
     rnd = random.Random(common.SEED + 606)
@@ -19,6 +40,8 @@ def main(tier, replay):
                            features={"tanks", "pumps", "cv", "patterns", "vcurve", "parallel", "controls", "closed", "minor"})
             if not any(nd["type"] == "T" for nd in s["nodes"]):
                 continue
+            if i % 3 == 1:
+                tank_pump(rnd, s)
             scns.append(s)
     good = hyd.validate(ck, "C06", scns, props)
     for s, rows in good:
